@@ -1,5 +1,5 @@
 SPECIFICATION Spec
 CONSTANTS
-  Strict = FALSE
+  Mode = "report"
 POSTCONDITION Accepted
 CHECK_DEADLOCK FALSE
